@@ -33,11 +33,14 @@ import (
 //	reset
 //	consts                              => <statusCheckInterval> <waitResponseTimeout> <startErrTimeout> (ms, the compiled-in values)
 //	upd <now> <dup> <name:variant:h:r>* => sorted events  C<name> (CloseProxy) / N<name> (NewProxy), or -
+//	                                       (the list is written as a configuration file that spells out only what the
+//	                                       variants set and read back through the real loader: eng_c19_load.go, loadCfgs)
 //	tick <name> <now>                   => none | events
 //	resp <name> <now> ok|err            => notfound | <ok|notwait|resperr|runerr>;<events>
 //	hup|hdown <name> <now>              => none | nohealth | events     (monitor callback + the wake-up it causes)
 //	work <name>                         => handed | closed
-//	status                              => name:phase:variant:id,…
+//	status                              => name:phase:variant:id,…   (variant = cfgMutated if the stored configuration object
+//	                                       no longer equals a second load of the text it came from)
 //	close                               => events                        (Manager.Close)
 //	oresp <k> <now> ok|err | ohup <k> | ohdown <k> | owork <k> | ostat <k>   ops on the k-th stopped wrapper
 //	vupd <name:variant:f>*              => cfg=name:variant,…;run=name,…  (visitor.Manager.UpdateAll)
@@ -190,6 +193,9 @@ type clientState struct {
 	vm       *visitor.Manager
 	epoch    int
 	info     map[v1.ProxyConfigurer]cfgInfo
+	pristine map[v1.ProxyConfigurer]v1.ProxyConfigurer // the same text loaded a second time (never given to frp)
+	loader   c19Loader
+	loadMu   sync.Mutex
 	vinfo    map[v1.VisitorConfigurer]int
 	lastSend map[*proxy.Wrapper]int64
 	lastErr  map[*proxy.Wrapper]int64
@@ -220,6 +226,7 @@ func clientReset() {
 		if cst.busyLn != nil {
 			cst.busyLn.Close()
 		}
+		cst.loader.close()
 		settle()
 	}
 	proxy.VerifSetTimings(hour, hour, hour)
@@ -229,6 +236,7 @@ func clientReset() {
 	common.Complete()
 	s := &clientState{cancel: cancel, tr: tr,
 		info: map[v1.ProxyConfigurer]cfgInfo{}, vinfo: map[v1.VisitorConfigurer]int{},
+		pristine: map[v1.ProxyConfigurer]v1.ProxyConfigurer{},
 		lastSend: map[*proxy.Wrapper]int64{}, lastErr: map[*proxy.Wrapper]int64{},
 		handed: make(chan struct{}, 16), names: map[string]bool{}}
 	s.pm = proxy.NewManager(ctx, common, tr, nil)
@@ -291,14 +299,14 @@ func evString(ev []string, ok bool) string {
 	return s
 }
 
-const nVariants = 17
+const nVariants = 19
 
 func variantFlags(v int) (h, r bool) {
 	if v >= cfvBase {
 		return cfvFlags(v - cfvBase)
 	}
 	switch v {
-	case 10, 11, 12:
+	case 10, 11, 12, 17, 18:
 		return true, false
 	case 13:
 		return false, true
@@ -308,23 +316,28 @@ func variantFlags(v int) (h, r bool) {
 	return false, false
 }
 
-// buildProxy: variants 0..16 are hand-picked configurations, variants >= cfvBase are field vectors
-// (eng_client_fields.go).  Every configuration is Complete()d, as the loader does with every entry
-// of a configuration file (defaults such as transport.bandwidthLimitMode = "client" are filled in).
+// buildProxy: variants 0..18 are hand-picked configurations, variants >= cfvBase are field vectors
+// (eng_client_fields.go), Complete()d as the loader does with every entry of a configuration file
+// (defaults such as transport.bandwidthLimitMode = "client" are filled in).  It is the REFERENCE image
+// (expected NewProxy contents); what the manager gets is loaded from text (loadCfgs).
 func buildProxy(name string, v int) v1.ProxyConfigurer {
-	if v >= cfvBase {
-		return cfvBuild(name, v-cfvBase)
-	}
-	c := buildProxyLegacy(name, v)
+	c := buildProxyRaw(name, v)
 	c.Complete("")
 	return c
+}
+
+// buildProxyRaw: the entry as it stands in a configuration file (nothing defaulted)
+func buildProxyRaw(name string, v int) v1.ProxyConfigurer {
+	if v >= cfvBase {
+		return cfvBuildRaw(name, v-cfvBase)
+	}
+	return buildProxyLegacy(name, v)
 }
 
 func buildProxyLegacy(name string, v int) v1.ProxyConfigurer {
 	base := func(t string) v1.ProxyBaseConfig {
 		b := v1.ProxyBaseConfig{Name: name, Type: t}
-		b.LocalIP = "127.0.0.1"
-		b.LocalPort = 80
+		b.LocalPort = 80 // (localIP is left to Complete())
 		return b
 	}
 	hc := func(b *v1.ProxyBaseConfig, t string, max int) {
@@ -334,7 +347,7 @@ func buildProxyLegacy(name string, v int) v1.ProxyConfigurer {
 			b.HealthCheck.Path = "/h"
 		}
 	}
-	bogus := func(b *v1.ProxyBaseConfig) { b.Plugin = v1.TypedClientPluginOptions{Type: "verif-bogus"} }
+	bogus := func(b *v1.ProxyBaseConfig) { b.Plugin = cfvFailingPlugin() }
 	switch v {
 	case 0:
 		return &v1.TCPProxyConfig{ProxyBaseConfig: base("tcp"), RemotePort: 6000}
@@ -401,6 +414,18 @@ func buildProxyLegacy(name string, v int) v1.ProxyConfigurer {
 		c := &v1.TCPProxyConfig{ProxyBaseConfig: base("tcp"), RemotePort: 6000}
 		c.LocalPort = 0
 		c.HealthCheck = v1.HealthCheckConfig{Type: "tcp", IntervalSeconds: 1}
+		return c
+	case 17:
+		// health check with nothing but its type: interval, timeout and maxFailed are the monitor's defaults
+		c := &v1.TCPProxyConfig{ProxyBaseConfig: base("tcp"), RemotePort: 6000}
+		c.LocalPort = 1
+		c.HealthCheck = v1.HealthCheckConfig{Type: "tcp"}
+		return c
+	case 18:
+		c := &v1.TCPProxyConfig{ProxyBaseConfig: base("tcp"), RemotePort: 6001}
+		c.LocalPort = 1
+		c.HealthCheck = v1.HealthCheckConfig{Type: "http", Path: "/h", IntervalSeconds: 1,
+			HTTPHeaders: []v1.HTTPHeader{{Name: "X-H", Value: "1"}}}
 		return c
 	}
 	panic("variant")
@@ -533,14 +558,9 @@ func clientExec(tok []string) string {
 		return fmt.Sprintf("%d %d %d", origCheck.Milliseconds(), origWait.Milliseconds(), origStartErr.Milliseconds())
 	case "upd":
 		now := int64(atoi(tok[1]))
-		s.epoch++
-		var cfgs []v1.ProxyConfigurer
-		for _, t := range tok[3:] {
-			f := strings.Split(t, ":")
-			c := buildProxy("p"+f[0], atoi(f[1]))
-			s.info[c] = cfgInfo{atoi(f[1]), s.epoch}
-			s.names["p"+f[0]] = true
-			cfgs = append(cfgs, c)
+		cfgs, err := s.loadCfgs(tok[3:])
+		if err != nil {
+			return "loaderr;" + hx(err.Error())
 		}
 		before := map[*proxy.Wrapper]bool{}
 		for _, st := range s.pm.GetAllProxyStatus() {
@@ -696,12 +716,44 @@ func clientExec(tok []string) string {
 	return "badop"
 }
 
+// loadCfgs: what a reload hands to the manager — the entries written as a configuration file (only the
+// values the tokens set) and read through config.LoadClientConfig + validation, freshly allocated
+func (s *clientState) loadCfgs(tokens []string) ([]v1.ProxyConfigurer, error) {
+	s.loadMu.Lock()
+	defer s.loadMu.Unlock()
+	s.epoch++
+	var ents []map[string]any
+	for _, t := range tokens {
+		f := strings.Split(t, ":")
+		ents = append(ents, c19Entry(buildProxyRaw("p"+f[0], atoi(f[1]))))
+		s.names["p"+f[0]] = true
+	}
+	ld, err := s.loader.load(ents, nil)
+	if err != nil {
+		return nil, err
+	}
+	for i, t := range tokens {
+		s.info[ld.proxies[i]] = cfgInfo{atoi(strings.Split(t, ":")[1]), s.epoch}
+		s.pristine[ld.proxies[i]] = ld.pristineP[i]
+	}
+	return ld.proxies, nil
+}
+
+// variant reported for a wrapper: the one its configuration object was loaded from — cfgMutated if
+// the object no longer equals what the loader produced from that text (something wrote into it)
+const cfgMutated = 999999999
+
 func (s *clientState) statusStr() string {
 	var out []string
 	for _, st := range s.pm.GetAllProxyStatus() {
+		s.loadMu.Lock()
 		inf, ok := s.info[st.Cfg]
+		pr := s.pristine[st.Cfg]
+		s.loadMu.Unlock()
 		if !ok {
 			inf = cfgInfo{-1, -1}
+		} else if pr != nil && !c19Intact(st.Cfg, pr) {
+			inf.variant = cfgMutated
 		}
 		out = append(out, fmt.Sprintf("%s:%s:%d:%d", strings.TrimPrefix(st.Name, "p"), phaseTok(st.Phase), inf.variant, inf.epoch))
 	}
@@ -727,7 +779,8 @@ func waitEvent(tr *capTransporter, want string, d time.Duration) bool {
 }
 
 // clientLive: real manager + real wrapper + REAL health monitor against a real listener, real time
-// (interval 1 s): open backend ⇒ NewProxy; backend down ⇒ CloseProxy (maxFailed 1); up again ⇒ NewProxy.
+// (interval 1 s): open backend ⇒ NewProxy; the same text loaded again while everything runs ⇒ nothing;
+// backend down ⇒ CloseProxy (maxFailed defaulted to 1); up again ⇒ NewProxy.
 func clientLive() string {
 	clientReset()
 	s := cst
@@ -746,13 +799,31 @@ func clientLive() string {
 		}
 	}
 	go accept(ln)
-	c := &v1.TCPProxyConfig{ProxyBaseConfig: v1.ProxyBaseConfig{Name: "p0", Type: "tcp"}, RemotePort: 6000}
-	c.LocalIP, c.LocalPort = "127.0.0.1", port
-	c.HealthCheck = v1.HealthCheckConfig{Type: "tcp", IntervalSeconds: 1, TimeoutSeconds: 1, MaxFailed: 1}
+	// the entry as text: localIP, the health check's timeout and maxFailed are left to their defaults
+	raw := &v1.TCPProxyConfig{ProxyBaseConfig: v1.ProxyBaseConfig{Name: "p0", Type: "tcp"}, RemotePort: 6000}
+	raw.LocalPort = port
+	raw.HealthCheck = v1.HealthCheckConfig{Type: "tcp", IntervalSeconds: 1}
+	load := func() []v1.ProxyConfigurer {
+		ld, err := s.loader.load([]map[string]any{c19Entry(raw)}, nil)
+		if err != nil {
+			return nil
+		}
+		return ld.proxies
+	}
 	var out []string
-	s.pm.UpdateAll([]v1.ProxyConfigurer{c})
+	s.pm.UpdateAll(load())
 	out = append(out, fmt.Sprintf("N=%t", waitEvent(s.tr, "N0", 4*time.Second)))
 	out = append(out, respClass(s.pm.StartProxy("p0", "r", "")))
+	// wrapper, monitor and proxy have been created and are running: the same text is loaded again
+	pw0, _ := s.pm.VerifWrapper("p0")
+	s.tr.take()
+	s.pm.UpdateAll(load())
+	pw1, _ := s.pm.VerifWrapper("p0")
+	if ev := s.tr.take(); len(ev) == 0 && pw0 == pw1 && pw1 != nil {
+		out = append(out, "R=same")
+	} else {
+		out = append(out, fmt.Sprintf("R=%s/restarted=%t", strings.Join(ev, "+"), pw0 != pw1))
+	}
 	ln.Close()
 	out = append(out, fmt.Sprintf("C=%t", waitEvent(s.tr, "C0", 4*time.Second)))
 	st, _ := s.pm.GetProxyStatus("p0")
